@@ -280,6 +280,7 @@ class Unit:
         self.items = []        # {'label','file','digest','kind'}
         self.fn_labels = {}    # label -> dict(start_line, end_line, spec_lines, ...)
         self.external_labels = []
+        self.mustfail_labels = []
         self._src = {}
 
     def src(self, rel):
@@ -608,6 +609,8 @@ class Unit:
         self.lines = []
         self.items = []
         self.external_labels = []
+        self.mustfail_labels = []
+        self._mustfail = None
         self.rules = Rules()
         with open(self.tpath) as f:
             tl = f.read().split('\n')
@@ -688,7 +691,16 @@ class Unit:
             elif s.startswith('//@'):
                 raise Unsupported('unknown directive: ' + s)
             else:
-                self.lines.append((ln, T))
+                mm = re.match(r'\s*(?:pub\s+)?proof fn (mustfail_\w+)', ln)
+                if mm:
+                    self._mustfail = mm.group(1)
+                    self.mustfail_labels.append(mm.group(1))
+                if getattr(self, '_mustfail', None):
+                    self.lines.append((ln, dict(kind='tmpl', label='mustfail:' + self._mustfail, section='vacuity-probe')))
+                    if ln.rstrip() == '}' or (mm and ln.rstrip().endswith('}')):
+                        self._mustfail = None
+                else:
+                    self.lines.append((ln, T))
             i += 1
         return '\n'.join(l for l, _ in self.lines) + '\n'
 
@@ -752,6 +764,8 @@ def classify(unit, res):
             'assertion failed', 'possible arithmetic', 'possible division', 'decreases not satisfied',
             'index out of bounds', 'possible bit shift', 'unreachable', 'recommendation not met',
             'could not prove', 'panic', 'might fail', 'may fail', 'underflow', 'overflow', 'resource limit', 'rlimit'))
+        if d.get('code'):
+            is_verif = False        # rustc error codes (E0425, ...) are never proof obligations
         if not is_verif and verification_ran and d.get('code') is None:
             # Verus reached the SMT stage (no rustc / VIR error): every remaining error is a failed obligation
             is_verif = True
@@ -771,8 +785,11 @@ def classify(unit, res):
         # which function does it belong to? the span lying in repo body/sig or spec of a label
         fn = None
         for s in e['spans']:
-            if s['origin'].get('label') and s['origin'].get('section') in ('body', 'sig', 'spec', 'entry', 'hint', 'vacuity') or \
-                    str(s['origin'].get('section', '')).startswith('loop'):
+            if s['origin'].get('section') == 'vacuity-probe':
+                fn = s['origin'].get('label')
+                break
+        for s in (e['spans'] if fn is None else []):
+            if s['origin'].get('label') and s['origin'].get('section') not in (None, 'prelude'):
                 # prefer the span that is in the function body (call site), else spec
                 if fn is None or s['origin'].get('section') == 'body':
                     fn = s['origin'].get('label')
